@@ -130,6 +130,37 @@ Theorem C04_receive_containers :
 Proof. exact receive_bytes_spec. Qed.
 Print Assumptions C04_receive_containers.
 
+(* ---- ALL sequences of Packets handed to receive() on one Session ----------------------------
+   any flags, fragment positions (also >= the length), lengths (0, 1, 65535 ...), group ids, empty or
+   not, duplicates, any order, interleaved groups: Session.frags is carried from Packet to Packet
+   (cluster.add counts empty parts, cluster.done indexes data[0] only behind its length check);
+   no step panics and the model's fuel is never exhausted.  st_wf [] holds (st_wf_nil). *)
+Theorem C04_fragment_sequences_no_panic :
+  forall self ps, Forall (fun p => bytes_ok (p_body p) = true) ps ->
+  outcome (recv_packets self [] ps) <> Panic /\ outcome (recv_packets self [] ps) <> Err EFuel.
+Proof. intros self ps H. exact (conj (recv_packets_no_panic self ps [] st_wf_nil H) (recv_packets_fuel self ps [] st_wf_nil H)). Qed.
+Print Assumptions C04_fragment_sequences_no_panic.
+
+(* the same with the Packets given as bytes (stream forms one behind the other) *)
+Theorem C04_receive_sequence :
+  forall self bs, bytes_ok bs = true ->
+  outcome (receive_seq self bs) <> Panic /\ alloc (receive_seq self bs) <= 2 * len bs + 4 * 65535 /\
+  outcome (receive_seq self bs) <> Err EFuel.
+Proof.
+  intros self bs H. exact (conj (proj1 (receive_seq_spec self bs H)) (conj (proj2 (receive_seq_spec self bs H)) (receive_seq_fuel self bs H))).
+Qed.
+Print Assumptions C04_receive_sequence.
+
+(* what the length check at the top of cluster.done is there for: without it (cl_done_g false) the
+   cluster left behind by two EMPTY parts of a group of two reaches data[0] of an empty slice *)
+Theorem C04_frag_done_guard_needed :
+  let e0 := Build_packet 192 7 (2 * 281474976710656 + 0 * 4294967296 + 8 * 65536 + 1) 0 [] [] [65] in
+  let e1 := Build_packet 192 7 (2 * 281474976710656 + 1 * 4294967296 + 8 * 65536 + 1) 0 [] [] [65] in
+  exists c1 c2, cl_add (Build_clus 0 0 []) e0 = Ok c1 /\ cl_add c1 e1 = Ok c2 /\
+                cl_done_g true c2 = Ok None /\ cl_done_g false c2 = Panic.
+Proof. exact frag_done_guard_needed. Qed.
+Print Assumptions C04_frag_done_guard_needed.
+
 (* ---- termination: the fuel of the model loops is never exhausted ----------------------------
    (decodePacket's label walk and decodePackets advance, list loops consume a byte per entry,
    every sub-packet of a container takes at least 46 bytes of its parent's body) *)
